@@ -449,7 +449,8 @@ def check(prop, tier, replay=None, quiet=False):
                 pref = part.get("scenario_prefix")
                 if pref and not scen.startswith(tuple(pref) if isinstance(pref, list) else pref):
                     continue
-                if part.get("scenario_exclude") and scen.startswith(part["scenario_exclude"]):
+                excl = part.get("scenario_exclude")
+                if excl and scen.startswith(tuple(excl) if isinstance(excl, list) else excl):
                     continue
             res, he = run_part(prop, part, tier, replay=replay, seed=seed, known_file=known_file())
             all_res += res
